@@ -22,6 +22,8 @@ func main() {
 		os.Exit(cmdCheck(os.Args[2:]))
 	case "dump":
 		os.Exit(cmdDump(os.Args[2:]))
+	case "replay":
+		os.Exit(cmdReplay(os.Args[2:]))
 	default:
 		fmt.Fprintln(os.Stderr, "unknown command", os.Args[1])
 		os.Exit(2)
@@ -169,6 +171,7 @@ func cmdCheck(args []string) int {
 	tier := fs.String("tier", "quick", "quick|thorough")
 	verbose := fs.Bool("v", false, "verbose")
 	noEvidence := fs.Bool("no-evidence", false, "do not write evidence/replay files (selftest)")
+	only := fs.String("only", "", "run only the obligation with this exact name")
 	var prop string
 	if len(args) > 0 && !strings.HasPrefix(args[0], "-") {
 		prop = args[0]
@@ -196,24 +199,32 @@ func cmdCheck(args []string) int {
 	var sel []*Obligation
 	for _, ob := range r.obls {
 		if prop == "all" || hasTag(ob.Tags, prop) {
+			if *only != "" && ob.Name != *only {
+				continue
+			}
 			sel = append(sel, ob)
 		}
 	}
 	extra := r.extraObligations(prop, *tier)
 	sel = append(sel, extra...)
+	kfs := loadKnownFindings()
 	runParallel(len(sel), 6, func(i int) {
 		ob := sel[i]
 		if ob.Status != "" {
 			return
 		}
+		to := timeout
+		if findingFor(kfs, prop, ob.Name) != nil && to > 3*time.Second {
+			// a recorded finding is expected not to discharge: do not wait long for it
+			to = 3 * time.Second
+		}
 		if ob.Run != nil {
-			ob.Run(ob, timeout)
+			ob.Run(ob, to)
 			return
 		}
-		r.owner[ob].solveObligation(ob, timeout)
+		r.owner[ob].solveObligation(ob, to)
 	})
 	sort.SliceStable(sel, func(i, j int) bool { return sel[i].Name < sel[j].Name })
-	kfs := loadKnownFindings()
 	var samples []map[string]interface{}
 	var known []map[string]string
 	funcs := map[string]bool{}
@@ -402,4 +413,31 @@ func assumptionsFor(externs, unmodelled []string) []string {
 		out = append(out, fmt.Sprintf("%d call sites are unmodelled (results havoc'd): see coverage.unmodelled_calls", len(unmodelled)))
 	}
 	return out
+}
+
+// replay: re-decides the obligation recorded in a replay file against the current tree
+// (for witnesses of bounded / regular-language obligations this re-runs the real code on
+// the recorded input as part of the obligation). Exit 1 if it still fails.
+func cmdReplay(args []string) int {
+	if len(args) < 1 {
+		fmt.Fprintln(os.Stderr, "usage: govc replay <replay file>")
+		return 2
+	}
+	b, err := os.ReadFile(args[0])
+	if err != nil {
+		fmt.Fprintln(os.Stderr, err)
+		return 2
+	}
+	var rp Replay
+	if err := json.Unmarshal(b, &rp); err != nil {
+		fmt.Fprintln(os.Stderr, err)
+		return 2
+	}
+	fmt.Printf("replaying obligation %s of %s\n  %s\n  recorded status: %s\n", rp.Obligation, rp.Property, rp.Description, rp.Status)
+	if rp.Witness != "" {
+		fmt.Printf("  recorded failing input: %q (%s)\n", rp.Witness, rp.WitnessNote)
+	} else {
+		fmt.Printf("  no failing input was recorded; solver output:\n%s\n", rp.SolverOut)
+	}
+	return cmdCheck([]string{rp.Property, "--no-evidence", "--only", rp.Obligation, "-v"})
 }
